@@ -405,7 +405,8 @@ def emit_extract(gen, ex, repo_root, unit):
         return
 
     # ---- fn ----
-    if ex.opts.get('nobody') or getattr(ex, 'assumed', False):
+    bodyless = bool(ex.opts.get('nobody') or getattr(ex, 'assumed', False))
+    if bodyless:
         # E8: a function that is only *assumed* (external_body) keeps its signature; the body is not copied, so that edits
         # inside it can neither be seen nor break the build of the unit
         item = item[:body_open - start] + '{ unimplemented!() }'
@@ -427,16 +428,16 @@ def emit_extract(gen, ex, repo_root, unit):
             before, after = b.text(), '\n'.join(b.with_lines or [])
             cnt = int(parse_opts(b.arg.split()).get('count', 1))
             occ = [m.start() for m in re.finditer(re.escape(before), item)]
+            if bodyless and len(occ) == 0:
+                continue  # a rewrite of body text: the body of an assumed function is not copied
             if len(occ) != cnt:
                 raise ExtractError('rewrite at %s:%d matches %d times (expected %d) in fn %s: %r'
                                    % (unit, b.lineno, len(occ), cnt, ex.name, before[:60]))
-            if assumed and any(p >= rel_open for p in occ):
-                continue  # body of an assumed (external_body) function stays verbatim
             for p in occ:
                 replaces.append((p, p + len(before), before, after))
             gen.rewrites.append({'item': ex.name, 'before': before, 'after': after, 'count': cnt,
                                  'at': '%s:%d' % (ex.file, line_of(src, start + occ[0]))})
-        elif assumed and b.kind in ('loop', 'before', 'after', 'tail', 'body'):
+        elif bodyless and b.kind in ('loop', 'before', 'after', 'tail', 'body'):
             continue  # proof splices are meaningless in an unverified body
         elif b.kind == 'spec':
             # before the body `{`, after the where clause
